@@ -1061,6 +1061,68 @@ def visit_helper(tu, cn, env, fun, depth=0):
     return calls, ret
 
 
+def range_helper_level(tu, node, env, level):
+    """`helper(first, last, [&](int v) { BODY })` with an (instantiated) helper whose body is the single loop
+    `for (int i = first; i < last; i++) body(i);`: one level of a loop nest, written through a 1D building block.
+    -> (loop variable decl, init / cond / inc nodes of the helper's loop, env for them, vref, BODY, env for BODY) or None"""
+    cn = tu.strip(node) if node is not None else None
+    if cn is None or cn.get('kind') != 'CallExpr':
+        return None
+    c = tu.callee_fn(cn)
+    if c is None or c['dep'] or tu.body(c) is None:
+        return None
+    _, _, cargs = tu.call_parts(cn)
+    if len(cargs) != len(c['params']):
+        return None
+    lam = [(j, tu.strip(a_, casts=True)) for j, a_ in enumerate(cargs)]
+    lam = [(j, a_) for j, a_ in lam if a_ is not None and a_.get('kind') == 'LambdaExpr']
+    if len(lam) != 1:
+        return None
+    j, L = lam[0]
+    hb = tu.kids(tu.body(c))
+    while len(hb) == 1 and hb[0].get('kind') == 'CompoundStmt':
+        hb = tu.kids(hb[0])
+    if len(hb) != 1 or hb[0].get('kind') != 'ForStmt':
+        return None
+    parts = for_parts(tu, hb[0])
+    if parts is None or parts[1] is not None or any(parts[i] is None for i in (0, 2, 3, 4)):
+        return None
+    init, _, cond, inc, hbody = parts
+    vds = [d for d in tu.kids(init) if d.get('kind') == 'VarDecl'] if init.get('kind') == 'DeclStmt' else []
+    if len(vds) != 1 or not tu.kids(vds[0]):
+        return None
+    v = vds[0]
+    while hbody is not None and hbody.get('kind') == 'CompoundStmt' and len(tu.kids(hbody)) == 1:
+        hbody = tu.kids(hbody)[0]
+    call = tu.strip(hbody) if hbody is not None else None
+    if call is None or call.get('kind') != 'CXXOperatorCallExpr':
+        return None
+    ks_ = tu.kids(call)
+    if not tu.sd(call).get('q', '').endswith('::operator()') or len(ks_) != 3:
+        return None
+    obj, args = ks_[1], ks_[2:]
+    if named_decl(tu, obj) != c['params'][j]['id'] or named_decl(tu, args[0]) != v['id']:
+        return None
+    # the lambda: one parameter, its body
+    meth = [m_ for r_ in tu.kids(L) if r_.get('kind') == 'CXXRecordDecl' for m_ in tu.kids(r_)
+            if m_.get('kind') == 'CXXMethodDecl' and m_.get('name') == 'operator()']
+    if len(meth) != 1:
+        return None
+    lps = [p_ for p_ in tu.kids(meth[0]) if p_.get('kind') == 'ParmVarDecl']
+    lbody = [b_ for b_ in tu.kids(L) if b_.get('kind') == 'CompoundStmt']
+    if len(lps) != 1 or len(lbody) != 1:
+        return None
+    vref = ('ref', 'VarDecl', '%s#%d' % (lps[0].get('name') or v.get('name'), level))
+    env2 = dict(env)
+    for k_, (prm, av) in enumerate(zip(c['params'], cargs)):
+        if k_ != j:
+            env2[prm['id']] = nf(tu, av, env)
+    env2[v['id']] = vref
+    env3 = dict(env)
+    env3[lps[0]['id']] = vref
+    return v, cond, inc, env2, vref, lbody[0], env3, strip_targs(c['q']).split('::')[-1]
+
+
 def check_for_each(ctx, tu):
     R = 'R-C17-4'
     n = 0
@@ -1141,22 +1203,34 @@ def check_for_each(ctx, tu):
                 und.append('body is not a single loop nest')
             env = {}
             helpers = []
-            while node is not None and node.get('kind') == 'ForStmt':
-                parts = for_parts(tu, node)
-                if parts is None or parts[1] is not None or any(parts[i] is None for i in (0, 2, 3, 4)):
-                    und.append('loop %d is not of the form for (init; cond; inc)' % level)
+            while node is not None:
+                rh = range_helper_level(tu, node, env, level) if node.get('kind') != 'ForStmt' else None
+                if node.get('kind') != 'ForStmt' and rh is None:
                     break
-                init, _, cond, inc, body = parts
-                vds = [d for d in tu.kids(init) if d.get('kind') == 'VarDecl'] if init.get('kind') == 'DeclStmt' else []
-                if len(vds) != 1 or not tu.kids(vds[0]):
-                    und.append('loop %d does not declare exactly one initialised variable' % level)
-                    break
-                v = vds[0]
-                i0 = nf(tu, tu.kids(v)[-1], env)
+                if rh is not None:
+                    # one level written through a 1D range helper taking the loop body as a lambda
+                    v, cond, inc, cenv, vref, body, env_next, hname = rh
+                    i0 = nf(tu, tu.kids(v)[-1], cenv)
+                    if hname not in helpers:
+                        helpers.append(hname)
+                else:
+                    parts = for_parts(tu, node)
+                    if parts is None or parts[1] is not None or any(parts[i] is None for i in (0, 2, 3, 4)):
+                        und.append('loop %d is not of the form for (init; cond; inc)' % level)
+                        break
+                    init, _, cond, inc, body = parts
+                    vds = [d for d in tu.kids(init) if d.get('kind') == 'VarDecl'] if init.get('kind') == 'DeclStmt' else []
+                    if len(vds) != 1 or not tu.kids(vds[0]):
+                        und.append('loop %d does not declare exactly one initialised variable' % level)
+                        break
+                    v = vds[0]
+                    i0 = nf(tu, tu.kids(v)[-1], env)
+                    cenv, env_next = env, env
+                    vref = ('ref', 'VarDecl', v.get('name'))
                 want = comp_expected[level] if level < 3 else '?'
                 if zero_lower:
                     # the component a loop runs over is the one its bound names (the lower corner is the constant 0)
-                    cpre = nf(tu, cond, env)
+                    cpre = nf(tu, cond, cenv)
                     cfrom = [x[2] for x in (cpre[2] if cpre[0] == 'op' and isinstance(cpre[2], tuple) else ())
                              if isinstance(x, tuple) and x and x[0] == 'mem' and x[1] == ('ref', 'ParmVarDecl', hi)]
                     if len(cfrom) != 1:
@@ -1184,8 +1258,7 @@ def check_for_each(ctx, tu):
                 if level < 3 and comp != want:
                     problems.append(('order', 'loop %d (outermost = 0) runs over component %s; the canonical flattened order is '
                                      'outer z, then y, inner x' % (level, comp)))
-                c = nf(tu, cond, env)
-                vref = ('ref', 'VarDecl', v.get('name'))
+                c = nf(tu, cond, cenv)
                 bound = None
                 if c[0] == 'op' and c[1] in ('<', '>', '<=', '>=', '!='):
                     a, b = c[2] if c[1] != '!=' else (c[2] + (None,))[:2]
@@ -1212,7 +1285,7 @@ def check_for_each(ctx, tu):
                         break
                 elif bound[2] != comp:
                     problems.append(('component', 'loop variable starts at lower.%s but is bounded by upper.%s' % (comp, bound[2])))
-                ic = nf(tu, inc, env)
+                ic = nf(tu, inc, cenv)
                 if not ((ic[0] == 'un' and ic[1] == '++' and ic[2] == vref) or
                         ic == ('op', '+=', (vref, ('int', 1)))):
                     if ic[0] in ('un', 'op') and vref in (ic[2] if isinstance(ic[2], tuple) else ()) or (ic[0] == 'un' and ic[2] == vref):
@@ -1223,6 +1296,7 @@ def check_for_each(ctx, tu):
                 loopvars[comp] = vref
                 level += 1
                 node = body
+                env = env_next
                 while node is not None and node.get('kind') == 'CompoundStmt' and len(tu.kids(node)) == 1:
                     node = tu.kids(node)[0]
                 # the inner loop(s) may live in a helper that is called once per iteration of this loop
@@ -1231,6 +1305,8 @@ def check_for_each(ctx, tu):
                     cn = tu.strip(node)
                     if cn is None or cn.get('kind') != 'CallExpr':
                         break
+                    if range_helper_level(tu, node, env, level) is not None:
+                        break               # a 1D range helper with a lambda body: handled as a loop level above
                     callee = tu.callee_fn(cn)
                     if callee is None or callee['dep'] or tu.body(callee) is None:
                         break
